@@ -73,7 +73,14 @@ def one_run(d, wild, shared, forced, threads1, nofork, prior, stop, how, kill=No
         if prior == "busy":
             shutil.copy("/bin/sleep", out)
             os.chmod(out, 0o755)
-            sleeper = subprocess.Popen([out, "30"])
+            for attempt in range(50):          # another worker thread's fork may still hold our write descriptor: ETXTBSY
+                try:
+                    sleeper = subprocess.Popen([out, "30"])
+                    break
+                except OSError as e:
+                    if e.errno != 26 or attempt == 49:
+                        raise
+                    time.sleep(0.05)
             time.sleep(0.05)
         else:
             open(out, "wb").write(b"OLD OUTPUT " * 50)
